@@ -51,15 +51,22 @@ theorem exec_append (E : EvalEnv) (a b : List Op) (s : St) :
     | none => rfl
     | some s' => simpa using ih s'
 
-/-- the fragment set covered by T3 so far. -/
+mutual
+/-- the fragment set covered by T3: since the quorums were added, every fragment (kept as a
+    predicate so that a fragment added to the AST has to be placed). -/
 def inS1 : Ms → Bool
   | .f0 | .f1 | .pk_k _ | .pk_h _ | .hash _ _ | .older _ | .after _ => true
+  | .multi _ _ | .multi_a _ _ => true
   | .wrap w x => (w == .c || w == .v || w == .a || w == .n || w == .s || w == .d || w == .j) && inS1 x
   | .bin b x y =>
     (b == .and_v || b == .and_b || b == .or_b || b == .or_i || b == .or_c || b == .or_d) &&
       inS1 x && inS1 y
   | .andor x y z => inS1 x && inS1 y && inS1 z
-  | _ => false
+  | .thresh _ x xs => inS1 x && inS1L xs
+def inS1L : MsL → Bool
+  | .nil => true
+  | .cons x xs => inS1 x && inS1L xs
+end
 
 def Op.isControl : Op → Bool
   | .opif | .notif | .opelse | .endif => true
@@ -95,6 +102,41 @@ theorem exec_cons_skip (E : EvalEnv) (o : Op) (os : List Op) (st al : List Bytes
     exec E (o :: os) ⟨st, al, cs⟩ = exec E os ⟨st, al, cs⟩ := by
   simp [exec, step_skip' E o st al cs ho hc]
 
+/-- an instruction list without IF/NOTIF/ELSE/ENDIF. -/
+def plain (ops : List Op) : Bool := ops.all fun o => !o.isControl
+
+theorem plain_append (a b : List Op) : plain (a ++ b) = (plain a && plain b) := by
+  simp [plain, List.all_append]
+
+theorem plain_cons (o : Op) (os : List Op) : plain (o :: os) = (!o.isControl && plain os) := by
+  simp [plain]
+
+theorem plain_nil : plain [] = true := rfl
+
+theorem plain_map_push (keys : List Key) : plain (keys.map .push) = true := by
+  simp [plain, Op.isControl]
+
+theorem plain_checksigadd (keys : List Key) :
+    plain (keys.flatMap fun k => [.push k, .checksigadd]) = true := by
+  simp [plain, Op.isControl]
+
+theorem plain_multiA (keys : List Key) : plain (multiAOps keys) = true := by
+  cases keys with
+  | nil => rfl
+  | cons k ks =>
+    simp only [multiAOps, plain_append, plain_checksigadd]
+    rfl
+
+/-- a list without conditionals, in a branch that is not executed, leaves the machine as it was. -/
+theorem exec_skip_plain (E : EvalEnv) : ∀ (ops : List Op) (st al : List Bytes) (cs : List Bool),
+    plain ops = true → executing cs = false → exec E ops ⟨st, al, cs⟩ = some ⟨st, al, cs⟩
+  | [], _, _, _, _, _ => rfl
+  | o :: os, st, al, cs, hp, hc => by
+    simp only [plain, List.all_cons, Bool.and_eq_true, Bool.not_eq_true'] at hp
+    rw [exec_cons_skip E o os st al cs hp.1 hc]
+    exact exec_skip_plain E os st al cs (by simpa [plain] using hp.2) hc
+
+mutual
 /-- a branch that is not executed leaves the machine as it was. -/
 theorem exec_skip (E : EvalEnv) (ctx : Ctx) (h160 : Bytes → Bytes) :
     ∀ (n : Ms) (v : Bool) (st al : List Bytes) (cs : List Bool), inS1 n = true →
@@ -152,13 +194,60 @@ theorem exec_skip (E : EvalEnv) (ctx : Ctx) (h160 : Bytes → Bytes) :
     have Hz := exec_skip E ctx h160 z false st al (false :: cs) hin.2 (by simp [executing_cons])
     have Hy := exec_skip E ctx h160 y false st al (true :: cs) hin.1.2 (by simp [executing_cons, hc])
     simp [opsOf, exec_append, Hx, exec, step, hc, Hz, Hy]
+  | .multi k keys, v, st, al, cs, _, hc => by
+    refine exec_skip_plain E _ st al cs ?_ hc
+    cases v <;> simp [opsOf, plain_append, plain_cons, plain_nil, plain_map_push, Op.isControl]
+  | .multi_a k keys, v, st, al, cs, _, hc => by
+    refine exec_skip_plain E _ st al cs ?_ hc
+    cases v <;> simp [opsOf, plain_append, plain_cons, plain_nil, plain_multiA, Op.isControl]
+  | .thresh k x xs, v, st, al, cs, hin, hc => by
+    simp only [inS1, Bool.and_eq_true] at hin
+    have Hx := exec_skip E ctx h160 x false st al cs hin.1 hc
+    have Hxs := exec_skipL E ctx h160 xs st al cs hin.2 hc
+    have hs := fun o ho os => exec_cons_skip E o os st al cs ho hc
+    cases v <;> simp [opsOf, exec_append, Hx, Hxs, hs (.pushnum k) rfl, hs .equal rfl, hs .equalverify rfl]
+theorem exec_skipL (E : EvalEnv) (ctx : Ctx) (h160 : Bytes → Bytes) :
+    ∀ (xs : MsL) (st al : List Bytes) (cs : List Bool), inS1L xs = true →
+      executing cs = false →
+      exec E (opsRest ctx h160 xs) ⟨st, al, cs⟩ = some ⟨st, al, cs⟩
+  | .nil, _, _, _, _, _ => rfl
+  | .cons x xs, st, al, cs, hin, hc => by
+    simp only [inS1L, Bool.and_eq_true] at hin
+    have Hx := exec_skip E ctx h160 x false st al cs hin.1 hc
+    have Hxs := exec_skipL E ctx h160 xs st al cs hin.2 hc
+    have hs := fun o ho os => exec_cons_skip E o os st al cs ho hc
+    simp [opsRest, exec_append, Hx, Hxs, hs .add rfl]
+end
 
 /-! ### what satisfies and what dissatisfies (BIP379's tables, stack order: head = top) -/
 
+/-- the elements a `multi_a(k, keys)` reads, top first: one per key, first key on top — empty, or a
+    signature that verifies under that key; `c` counts the signatures. -/
+inductive SigRow (E : EvalEnv) : List Key → List Bytes → Nat → Prop
+  | nil : SigRow E [] [] 0
+  | skip (k : Key) (ks : List Key) (s : List Bytes) (c : Nat) :
+    SigRow E ks s c → SigRow E (k :: ks) ([] :: s) c
+  | sign (k : Key) (ks : List Key) (σ : Bytes) (s : List Bytes) (c : Nat) :
+    E.sigOK k σ = true → SigRow E ks s c → SigRow E (k :: ks) (σ :: s) (c + 1)
+
+/-- the signatures an OP_CHECKMULTISIG reads: each verifies under a key of the list, in the order
+    of the keys (keys may be left out). -/
+inductive SigSub (E : EvalEnv) : List Key → List Bytes → Prop
+  | nil : SigSub E [] []
+  | skip (k : Key) (ks : List Key) (s : List Bytes) : SigSub E ks s → SigSub E (k :: ks) s
+  | sign (k : Key) (ks : List Key) (σ : Bytes) (s : List Bytes) :
+    E.sigOK k σ = true → SigSub E ks s → SigSub E (k :: ks) (σ :: s)
+
 mutual
 /-- `Sat E n s`: the stack segment `s` (top first) is a satisfaction of `n`: every candidate
-    `_computed_input` lists under `sat` for the fragments of S1 (the overcomplete ones included). -/
+    `_computed_input` lists under `sat` (the overcomplete ones included). -/
 inductive Sat (E : EvalEnv) : Ms → List Bytes → Prop
+  | multi (k : Nat) (keys : List Key) (sigs : List Bytes) :
+    sigs.length = k → SigSub E keys.reverse sigs → Sat E (.multi k keys) (sigs ++ [[]])
+  | multi_a (k : Nat) (keys : List Key) (s : List Bytes) :
+    SigRow E keys s k → Sat E (.multi_a k keys) s
+  | thresh (k : Nat) (x : Ms) (xs : MsL) (s : List Bytes) :
+    SatL E (.cons x xs) s k → Sat E (.thresh k x xs) s
   | f1 : Sat E .f1 []
   | pk_k (k : Key) (σ : Bytes) : E.sigOK k σ = true → Sat E (.pk_k k) [σ]
   | pk_h (k : Key) (σ : Bytes) : E.sigOK k σ = true → Sat E (.pk_h k) [k, σ]
@@ -192,6 +281,11 @@ inductive Sat (E : EvalEnv) : Ms → List Bytes → Prop
     Dsat E x sx → Sat E z sz → Sat E (.andor x y z) (sx ++ sz)
 /-- `Dsat E n s`: a dissatisfaction. -/
 inductive Dsat (E : EvalEnv) : Ms → List Bytes → Prop
+  | multi (k : Nat) (keys : List Key) : Dsat E (.multi k keys) (List.replicate (k + 1) [])
+  | multi_a (k : Nat) (keys : List Key) (s : List Bytes) (c : Nat) :
+    SigRow E keys s c → c ≠ k → Dsat E (.multi_a k keys) s
+  | thresh (k : Nat) (x : Ms) (xs : MsL) (s : List Bytes) (c : Nat) :
+    SatL E (.cons x xs) s c → c ≠ k → Dsat E (.thresh k x xs) s
   | f0 : Dsat E .f0 []
   | pk_k (k : Key) : Dsat E (.pk_k k) [[]]
   | pk_h (k : Key) : Dsat E (.pk_h k) [k, []]
@@ -220,6 +314,14 @@ inductive Dsat (E : EvalEnv) : Ms → List Bytes → Prop
     Dsat E x sx → Dsat E z sz → Dsat E (.andor x y z) (sx ++ sz)
   | andor_y (x y z : Ms) (sx sy : List Bytes) :
     Sat E x sx → Dsat E y sy → Dsat E (.andor x y z) (sx ++ sy)
+/-- `SatL E xs s c`: `s` is, top first, one satisfaction or dissatisfaction per argument of a
+    `thresh()`, first argument on top; `c` of them are satisfactions. -/
+inductive SatL (E : EvalEnv) : MsL → List Bytes → Nat → Prop
+  | nil : SatL E .nil [] 0
+  | sat (x : Ms) (xs : MsL) (sx s : List Bytes) (c : Nat) :
+    Sat E x sx → SatL E xs s c → SatL E (.cons x xs) (sx ++ s) (c + 1)
+  | dsat (x : Ms) (xs : MsL) (sx s : List Bytes) (c : Nat) :
+    Dsat E x sx → SatL E xs s c → SatL E (.cons x xs) (sx ++ s) c
 end
 
 section
@@ -551,11 +653,17 @@ end
 
 /-! ### the induction -/
 
-/-- in S1, and typed at every node. -/
+mutual
+/-- covered, and typed at every node (with what `_assert_shape` asks of the numbers the theorems
+    read: lock times, key counts and thresholds in range). -/
 def s1Typed (ctx : Ctx) : Ms → Bool
   | .f0 | .f1 | .pk_k _ | .hash _ _ => true
   | .pk_h k => !k.isEmpty
   | .older n | .after n => decide (1 ≤ n) && decide (n < 2 ^ 31)
+  | .multi k keys =>
+    decide (1 ≤ k) && decide (k ≤ keys.length) && decide (keys.length ≤ MAX_PUBKEYS_PER_MULTISIG)
+  | .multi_a k keys =>
+    decide (1 ≤ k) && decide (k ≤ keys.length) && decide (keys.length ≤ MAX_PUBKEYS_PER_MULTI_A)
   | .wrap w x =>
     (w == .c || w == .v || w == .a || w == .n || w == .s || w == .d || w == .j) &&
       decide ((typeOf ctx (.wrap w x)).basicCount = 1) && s1Typed ctx x
@@ -565,10 +673,18 @@ def s1Typed (ctx : Ctx) : Ms → Bool
   | .andor x y z =>
     decide ((typeOf ctx (.andor x y z)).basicCount = 1) && s1Typed ctx x && s1Typed ctx y &&
       s1Typed ctx z
-  | _ => false
+  | .thresh k x xs =>
+    decide ((typeOf ctx (.thresh k x xs)).basicCount = 1) && decide (1 ≤ k) &&
+      decide (k ≤ xs.length + 1) && decide (xs.length + 1 < 2 ^ 31) && s1Typed ctx x && s1TypedL ctx xs
+def s1TypedL (ctx : Ctx) : MsL → Bool
+  | .nil => true
+  | .cons x xs => s1Typed ctx x && s1TypedL ctx xs
+end
 
+mutual
 theorem inS1_of_s1Typed (ctx : Ctx) : ∀ n, s1Typed ctx n = true → inS1 n = true
   | .f0, _ | .f1, _ | .pk_k _, _ | .pk_h _, _ | .hash _ _, _ | .older _, _ | .after _, _ => rfl
+  | .multi _ _, _ | .multi_a _ _, _ => rfl
   | .wrap w x, h => by
     simp only [s1Typed, Bool.and_eq_true] at h
     simp [inS1, h.1.1, inS1_of_s1Typed ctx x h.2]
@@ -578,7 +694,15 @@ theorem inS1_of_s1Typed (ctx : Ctx) : ∀ n, s1Typed ctx n = true → inS1 n = t
   | .andor x y z, h => by
     simp only [s1Typed, Bool.and_eq_true] at h
     simp [inS1, inS1_of_s1Typed ctx x h.1.1.2, inS1_of_s1Typed ctx y h.1.2, inS1_of_s1Typed ctx z h.2]
-  | .multi _ _, h | .multi_a _ _, h | .thresh _ _ _, h => by simp [s1Typed] at h
+  | .thresh k x xs, h => by
+    simp only [s1Typed, Bool.and_eq_true] at h
+    simp [inS1, inS1_of_s1Typed ctx x h.1.2, inS1L_of_s1TypedL ctx xs h.2]
+theorem inS1L_of_s1TypedL (ctx : Ctx) : ∀ xs, s1TypedL ctx xs = true → inS1L xs = true
+  | .nil, _ => rfl
+  | .cons x xs, h => by
+    simp only [s1TypedL, Bool.and_eq_true] at h
+    simp [inS1L, inS1_of_s1Typed ctx x h.1, inS1L_of_s1TypedL ctx xs h.2]
+end
 
 theorem exec_cons_run (E : EvalEnv) (o : Op) (os : List Op) (st al : List Bytes)
     (cs : List Bool) (ho : o.isControl = false) (hc : executing cs = true) :
@@ -1387,108 +1511,6 @@ theorem len_andor {t tx ty tz : Props} {sx s2 : List Bytes}
   rw [hz, ho, List.length_append]
   exact len_andor_nat _ _ _ _ _ _ _ _ hx h2
 
-theorem len_s1 : ∀ (n : Ms), s1Typed ctx n = true →
-    (∀ s, Sat E n s → Len (typeOf ctx n) s) ∧ (∀ s, Dsat E n s → Len (typeOf ctx n) s)
-  | .f0, _ => by
-    have hz : (typeOf ctx .f0).o = false := rfl
-    constructor <;> intro s hs <;> cases hs <;> simp [Len, hz]
-  | .f1, _ => by
-    have hz : (typeOf ctx .f1).o = false := rfl
-    constructor <;> intro s hs <;> cases hs <;> simp [Len, hz]
-  | .pk_k k, _ => by
-    have hz : (typeOf ctx (.pk_k k)).z = false := rfl
-    constructor <;> intro s hs <;> cases hs <;> simp [Len, hz]
-  | .pk_h k, _ => by
-    have hz : (typeOf ctx (.pk_h k)).z = false := rfl
-    have ho : (typeOf ctx (.pk_h k)).o = false := rfl
-    constructor <;> intro s hs <;> cases hs <;> simp [Len, hz, ho]
-  | .hash hk d, _ => by
-    have hz : (typeOf ctx (.hash hk d)).z = false := rfl
-    constructor <;> intro s hs <;> cases hs <;> simp [Len, hz]
-  | .older n, _ => by
-    obtain ⟨_, _, _, _, _, ho⟩ := ty_older ctx n
-    constructor <;> intro s hs <;> cases hs <;> simp [Len, ho]
-  | .after n, _ => by
-    obtain ⟨_, _, _, _, _, ho⟩ := ty_after ctx n
-    constructor <;> intro s hs <;> cases hs <;> simp [Len, ho]
-  | .wrap w x, h => by
-    simp only [s1Typed, Bool.and_eq_true, Bool.or_eq_true, beq_iff_eq, decide_eq_true_eq] at h
-    obtain ⟨ihs, ihd⟩ := len_s1 x h.2
-    obtain ⟨hz, ho⟩ := zo_wrap ctx w x h.1.2
-    constructor
-    · intro s hs
-      cases hs with
-      | wrap _ _ _ _ _ hs =>
-        have := ihs s hs
-        unfold Len at *
-        rw [hz, ho]
-        cases w <;> simp_all
-      | wrap_d _ sx hs =>
-        have := ihs sx hs
-        unfold Len at *
-        rw [hz, ho]
-        simp_all
-      | wrap_j _ _ hs _ =>
-        have := ihs s hs
-        unfold Len at *
-        rw [hz, ho]
-        simp_all
-    · intro s hs
-      unfold Len
-      rw [hz, ho]
-      cases hs with
-      | wrap_c _ _ hs => have := ihd s hs; unfold Len at this; simp_all
-      | wrap_a _ _ hs => simp
-      | wrap_n _ _ hs => have := ihd s hs; unfold Len at this; simp_all
-      | wrap_s _ _ hs => simp
-      | wrap_d _ => simp
-      | wrap_j _ => simp
-  | .bin b x y, h => by
-    simp only [s1Typed, Bool.and_eq_true, Bool.or_eq_true, beq_iff_eq, decide_eq_true_eq] at h
-    obtain ⟨xs, xd⟩ := len_s1 x h.1.2
-    obtain ⟨ys, yd⟩ := len_s1 y h.2
-    obtain ⟨hz, ho⟩ := zo_bin ctx b x y h.1.1.2
-    constructor
-    · intro s hs
-      cases hs with
-      | and_v _ _ sx sy hsx hsy => exact len_and hz ho (xs _ hsx) (ys _ hsy)
-      | and_b _ _ sx sy hsx hsy => exact len_and hz ho (xs _ hsx) (ys _ hsy)
-      | or_b_l _ _ sx sy hsx hsy => exact len_and hz ho (xs _ hsx) (yd _ hsy)
-      | or_b_r _ _ sx sy hsx hsy => exact len_and hz ho (xd _ hsx) (ys _ hsy)
-      | or_b_both _ _ sx sy hsx hsy => exact len_and hz ho (xs _ hsx) (ys _ hsy)
-      | or_i_l _ _ sx hsx => exact len_ori _ hz ho (Or.inl (xs _ hsx))
-      | or_i_r _ _ sy hsy => exact len_ori _ hz ho (Or.inr (ys _ hsy))
-      | or_c_l _ _ _ hsx => exact len_orc_l hz ho (xs _ hsx)
-      | or_c_r _ _ sx sy hsx hsy => exact len_orc_r hz ho (xd _ hsx) (ys _ hsy)
-      | or_d_l _ _ _ hsx => exact len_orc_l hz ho (xs _ hsx)
-      | or_d_r _ _ sx sy hsx hsy => exact len_orc_r hz ho (xd _ hsx) (ys _ hsy)
-    · intro s hs
-      cases hs with
-      | and_v_d _ _ sx sy hsx hsy => exact len_and hz ho (xs _ hsx) (yd _ hsy)
-      | and_b _ _ sx sy hsx hsy => exact len_and hz ho (xd _ hsx) (yd _ hsy)
-      | and_b_l _ _ sx sy hsx hsy => exact len_and hz ho (xs _ hsx) (yd _ hsy)
-      | and_b_r _ _ sx sy hsx hsy => exact len_and hz ho (xd _ hsx) (ys _ hsy)
-      | or_b _ _ sx sy hsx hsy => exact len_and hz ho (xd _ hsx) (yd _ hsy)
-      | or_i_l _ _ sx hsx => exact len_ori _ hz ho (Or.inl (xd _ hsx))
-      | or_i_r _ _ sy hsy => exact len_ori _ hz ho (Or.inr (yd _ hsy))
-      | or_d _ _ sx sy hsx hsy => exact len_orc_r hz ho (xd _ hsx) (yd _ hsy)
-  | .andor x y z, h => by
-    simp only [s1Typed, Bool.and_eq_true, decide_eq_true_eq] at h
-    obtain ⟨xs, xd⟩ := len_s1 x h.1.1.2
-    obtain ⟨ys, yd⟩ := len_s1 y h.1.2
-    obtain ⟨zs, zd⟩ := len_s1 z h.2
-    obtain ⟨hz, ho⟩ := zo_andor ctx x y z h.1.1.1
-    constructor
-    · intro s hs
-      cases hs with
-      | andor_l _ _ _ sx sy hsx hsy => exact len_andor hz ho (xs _ hsx) (Or.inl (ys _ hsy))
-      | andor_r _ _ _ sx sz hsx hsz => exact len_andor hz ho (xd _ hsx) (Or.inr (zs _ hsz))
-    · intro s hs
-      cases hs with
-      | andor _ _ _ sx sz hsx hsz => exact len_andor hz ho (xd _ hsx) (Or.inr (zd _ hsz))
-      | andor_y _ _ _ sx sy hsx hsy => exact len_andor hz ho (xs _ hsx) (Or.inl (yd _ hsy))
-  | .multi _ _, h | .multi_a _ _, h | .thresh _ _ _, h => by simp [s1Typed] at h
-
 theorem sound_s (x : Ms) (ht : Typed ctx (.wrap .s x)) (ih : Sound E ctx h160 x)
     (hlen : ∀ s, (Sat E x s ∨ Dsat E x s) → Len (typeOf ctx x) s) :
     Sound E ctx h160 (.wrap .s x) := by
@@ -1557,69 +1579,6 @@ theorem sound_d (x : Ms) (ht : Typed ctx (.wrap .d x)) (hix : inS1 x = true)
 
 theorem encodeNum_zero : encodeNum 0 = [] := by decide
 
-theorem ntop_s1 (hsig0 : ∀ k, E.sigOK k [] = false) : ∀ (n : Ms), s1Typed ctx n = true →
-    ∀ s, Sat E n s → (typeOf ctx n).n = true → ∃ e rest, s = e :: rest ∧ e ≠ []
-  | .f0, _, s, hs, _ => by cases hs
-  | .f1, _, s, hs, hn => by
-    have : (typeOf ctx .f1).n = false := rfl
-    rw [this] at hn; cases hn
-  | .pk_k k, _, s, hs, _ => by
-    cases hs with
-    | pk_k _ σ hσ => exact ⟨σ, [], rfl, fun h => by rw [h, hsig0] at hσ; cases hσ⟩
-  | .pk_h k, h, s, hs, _ => by
-    cases hs with
-    | pk_h _ σ hσ =>
-      refine ⟨k, [σ], rfl, fun hk => ?_⟩
-      simp [s1Typed, hk] at h
-  | .hash hk d, _, s, hs, _ => by
-    cases hs with
-    | hash _ _ p hp _ => exact ⟨p, [], rfl, fun h => by rw [h] at hp; cases hp⟩
-  | .older n, _, s, hs, hn => by
-    rw [(ty_older_n ctx n)] at hn; cases hn
-  | .after n, _, s, hs, hn => by
-    rw [(ty_after_n ctx n)] at hn; cases hn
-  | .wrap w x, h, s, hs, hn => by
-    simp only [s1Typed, Bool.and_eq_true, Bool.or_eq_true, beq_iff_eq, decide_eq_true_eq] at h
-    rw [n_wrap ctx w x h.1.2] at hn
-    cases hs with
-    | wrap _ _ _ hd hj hs =>
-      cases w <;> simp at hn hd hj
-      all_goals exact ntop_s1 hsig0 x h.2 s hs hn
-    | wrap_d _ sx hs => exact ⟨[1], sx, rfl, by decide⟩
-    | wrap_j _ _ hs _ => exact ntop_s1 hsig0 x h.2 s hs (ty_j ctx x h.1.2).2.1
-  | .bin b x y, h, s, hs, hn => by
-    simp only [s1Typed, Bool.and_eq_true, Bool.or_eq_true, beq_iff_eq, decide_eq_true_eq] at h
-    rw [n_bin ctx b x y h.1.1.2] at hn
-    have key : ∀ sx sy, Sat E x sx → Sat E y sy →
-        ((typeOf ctx x).n || ((typeOf ctx x).z && (typeOf ctx y).n)) = true →
-        ∃ e rest, sx ++ sy = e :: rest ∧ e ≠ [] := by
-      intro sx sy hsx hsy hn
-      rcases Bool.or_eq_true_iff.mp hn with h1 | h1
-      · obtain ⟨e, rest, rfl, he⟩ := ntop_s1 hsig0 x h.1.2 sx hsx h1
-        exact ⟨e, rest ++ sy, rfl, he⟩
-      · rw [Bool.and_eq_true] at h1
-        have hl := ((len_s1 E ctx x h.1.2).1 sx hsx).1 h1.1
-        have : sx = [] := List.length_eq_zero_iff.mp hl
-        subst this
-        simpa using ntop_s1 hsig0 y h.2 sy hsy h1.2
-    cases hs with
-    | and_v _ _ sx sy hsx hsy => exact key sx sy hsx hsy hn
-    | and_b _ _ sx sy hsx hsy => exact key sx sy hsx hsy hn
-    | or_b_l _ _ sx sy hsx hsy => cases hn
-    | or_b_r _ _ sx sy hsx hsy => cases hn
-    | or_b_both _ _ sx sy hsx hsy => cases hn
-    | or_i_l _ _ sx hsx => cases hn
-    | or_i_r _ _ sy hsy => cases hn
-    | or_c_l _ _ _ hsx => cases hn
-    | or_c_r _ _ sx sy hsx hsy => cases hn
-    | or_d_l _ _ _ hsx => cases hn
-    | or_d_r _ _ sx sy hsx hsy => cases hn
-  | .andor x y z, h, s, hs, hn => by
-    simp only [s1Typed, Bool.and_eq_true, decide_eq_true_eq] at h
-    rw [n_andor ctx x y z h.1.1.1] at hn; cases hn
-  | .multi _ _, h, _, _, _ | .multi_a _ _, h, _, _, _ | .thresh _ _ _, h, _, _, _ => by
-    simp [s1Typed] at h
-
 theorem sound_j (x : Ms) (ht : Typed ctx (.wrap .j x)) (hix : inS1 x = true)
     (ih : Sound E ctx h160 x)
     (hn : ∀ s, Sat E x s → ∃ e rest, s = e :: rest ∧ e ≠ []) :
@@ -1666,56 +1625,6 @@ theorem sound_j (x : Ms) (ht : Typed ctx (.wrap .j x)) (hix : inS1 x = true)
     rw [exec_cons_run E .zeronotequal _ _ al cs rfl hc]
     simp only [stepExec, numTruth_nil, boolBytes, Bool.false_eq_true, if_false, Option.bind_some,
       exec, e0, exec_append, e1, e2]
-
-/-- T3 for S1: every typed expression of the fragment set does to the stack what its type says. -/
-theorem sound_s1 (hsig0 : ∀ k, E.sigOK k [] = false) (hH : ∀ k, E.hashF .hash160 k = h160 k) :
-    ∀ (n : Ms), s1Typed ctx n = true → Sound E ctx h160 n
-  | .f0, _ => sound_f0 E ctx h160
-  | .f1, _ => sound_f1 E ctx h160
-  | .pk_k k, _ => sound_pk_k E ctx h160 hsig0 k
-  | .pk_h k, _ => sound_pk_h E ctx h160 hsig0 hH k
-  | .hash h d, _ => sound_hash E ctx h160 h d
-  | .older n, h => by
-    simp only [s1Typed, Bool.and_eq_true, decide_eq_true_eq] at h
-    exact sound_older E ctx h160 n h.1 h.2
-  | .after n, h => by
-    simp only [s1Typed, Bool.and_eq_true, decide_eq_true_eq] at h
-    exact sound_after E ctx h160 n h.1 h.2
-  | .wrap w x, h => by
-    simp only [s1Typed, Bool.and_eq_true, Bool.or_eq_true, beq_iff_eq, decide_eq_true_eq] at h
-    have ih := sound_s1 hsig0 hH x h.2
-    have hlen : ∀ s, (Sat E x s ∨ Dsat E x s) → Len (typeOf ctx x) s := by
-      intro s hs
-      rcases hs with hs | hs
-      · exact (len_s1 E ctx x h.2).1 s hs
-      · exact (len_s1 E ctx x h.2).2 s hs
-    rcases h.1.1 with (((((rfl | rfl) | rfl) | rfl) | rfl) | rfl) | rfl
-    · exact sound_c E ctx h160 x h.1.2 ih
-    · exact sound_v E ctx h160 x h.1.2 ih
-    · exact sound_a E ctx h160 x h.1.2 ih
-    · exact sound_n E ctx h160 x h.1.2 ih
-    · exact sound_s E ctx h160 x h.1.2 ih hlen
-    · exact sound_d E ctx h160 x h.1.2 (inS1_of_s1Typed ctx x h.2) ih hlen
-    · exact sound_j E ctx h160 x h.1.2 (inS1_of_s1Typed ctx x h.2) ih
-        (fun s hs => ntop_s1 E ctx hsig0 x h.2 s hs (ty_j ctx x h.1.2).2.1)
-  | .bin b x y, h => by
-    simp only [s1Typed, Bool.and_eq_true, Bool.or_eq_true, beq_iff_eq, decide_eq_true_eq] at h
-    have ihx := sound_s1 hsig0 hH x h.1.2
-    have ihy := sound_s1 hsig0 hH y h.2
-    rcases h.1.1.1 with ((((rfl | rfl) | rfl) | rfl) | rfl) | rfl
-    · exact sound_and_v E ctx h160 x y h.1.1.2 ihx ihy
-    · exact sound_and_b E ctx h160 x y h.1.1.2 ihx ihy
-    · exact sound_or_b E ctx h160 x y h.1.1.2 ihx ihy
-    · exact sound_or_i E ctx h160 x y h.1.1.2 (inS1_of_s1Typed ctx x h.1.2)
-        (inS1_of_s1Typed ctx y h.2) ihx ihy
-    · exact sound_or_c E ctx h160 x y h.1.1.2 (inS1_of_s1Typed ctx y h.2) ihx ihy
-    · exact sound_or_d E ctx h160 x y h.1.1.2 (inS1_of_s1Typed ctx y h.2) ihx ihy
-  | .andor x y z, h => by
-    simp only [s1Typed, Bool.and_eq_true, decide_eq_true_eq] at h
-    exact sound_andor E ctx h160 x y z h.1.1.1 (inS1_of_s1Typed ctx y h.1.2)
-      (inS1_of_s1Typed ctx z h.2) (sound_s1 hsig0 hH x h.1.1.2) (sound_s1 hsig0 hH y h.1.2)
-      (sound_s1 hsig0 hH z h.2)
-  | .multi _ _, h | .multi_a _ _, h | .thresh _ _ _, h => by simp [s1Typed] at h
 
 end
 
